@@ -17,9 +17,11 @@ import (
 )
 
 type term struct {
-	K string // kind
-	S string
-	A []*term
+	K  string // kind
+	S  string
+	A  []*term
+	F  *ssa.Function          // K == "sym", S == "func": the function or closure the value is
+	FB map[*ssa.FreeVar]*term // ... and what its captured variables hold
 	// loop reads ("A*k"): the wire position of the loop's first read in its first iteration
 	// (0 = unknown) and the number of reads one iteration makes. Not printed.
 	LoopBase, Period int
@@ -113,19 +115,20 @@ func tAlt(ts ...*term) *term {
 
 // symEnv is the evaluation context of one function activation.
 type symEnv struct {
-	p        *Program
-	fn       *ssa.Function
-	bind     map[*ssa.Parameter]*term
-	fbind    map[*ssa.FreeVar]*term
-	base     int  // wire position of the first read of this activation minus 1
-	baseOK   bool // false: positions are not known (after a variadic read / inside an option loop)
-	cursor   ssa.Value
-	relBase  int // >= 0: this activation runs inside a loop iteration of a caller, after relBase reads
-	depth    int
-	x        *extractor
-	memo     map[ssa.Value]*term
-	busy     map[ssa.Value]bool
-	children map[*ssa.Call]*symEnv
+	p         *Program
+	fn        *ssa.Function
+	bind      map[*ssa.Parameter]*term
+	fbind     map[*ssa.FreeVar]*term
+	base      int  // wire position of the first read of this activation minus 1
+	baseOK    bool // false: positions are not known (after a variadic read / inside an option loop)
+	cursor    ssa.Value
+	relBase   int // >= 0: this activation runs inside a loop iteration of a caller, after relBase reads
+	depth     int
+	x         *extractor
+	memo      map[ssa.Value]*term
+	busy      map[ssa.Value]bool
+	children  map[*ssa.Call]*symEnv
+	pendingFB map[*ssa.FreeVar]*term // captured-variable values for the closure about to be inlined
 }
 
 // HandlerCall is one call of a command-handler interface method found during extraction.
@@ -484,6 +487,42 @@ func (e *symEnv) eval(v ssa.Value) *term {
 	return t
 }
 
+// evalOnEdge evaluates a phi operand knowing which edge carries it: a result of a framework
+// helper is taken over the helper's returns consistent with the tests of its boolean results
+// that hold on the edge (token, present := optional(); if present { use token }).
+func (e *symEnv) evalOnEdge(v ssa.Value, pred, succ *ssa.BasicBlock) *term {
+	ex, ok := strip(v).(*ssa.Extract)
+	if !ok {
+		return e.eval(v)
+	}
+	call, ok := ex.Tuple.(*ssa.Call)
+	if !ok || call.Common().IsInvoke() {
+		return e.eval(v)
+	}
+	callee := staticCallee(call.Common())
+	if callee == nil || callee.Blocks == nil || !inFramework(callee) || e.p.isDispatcherCall(call.Common()) || e.depth > 5 {
+		return e.eval(v)
+	}
+	req := map[int]bool{}
+	for _, at := range edgeFacts(pred, succIndex(pred, succ)) {
+		if at.Kind != "val" {
+			continue
+		}
+		if fx, ok := at.X.(*ssa.Extract); ok && fx.Tuple == ssa.Value(call) {
+			req[fx.Index] = at.Pos
+		}
+	}
+	if len(req) == 0 {
+		return e.eval(v)
+	}
+	e.eval(v) // records the helper's effects once, unrestricted
+	ts := e.childEnv(call, callee).resultsWhere(callee, req)
+	if ex.Index < len(ts) {
+		return ts[ex.Index]
+	}
+	return e.eval(v)
+}
+
 func constTerm(c *ssa.Const) *term {
 	if c.Value == nil {
 		if _, ok := c.Type().Underlying().(*types.Struct); ok {
@@ -538,8 +577,8 @@ func (e *symEnv) eval1(v ssa.Value) *term {
 	case *ssa.Phi:
 		var alts []*term
 		isList := false
-		for _, ed := range x.Edges {
-			t := e.eval(ed)
+		for k, ed := range x.Edges {
+			t := e.evalOnEdge(ed, x.Block().Preds[k], x.Block())
 			if t.K == "sym" && t.S == "loop" {
 				continue
 			}
@@ -636,8 +675,26 @@ func (e *symEnv) eval1(v ssa.Value) *term {
 		st := e.eval(x.X)
 		name := x.X.Type().Underlying().(*types.Struct).Field(x.Field).Name()
 		return selectField(st, name)
-	case *ssa.MakeClosure, *ssa.Function:
-		return &term{K: "sym", S: "func"}
+	case *ssa.MakeClosure:
+		f, _ := x.Fn.(*ssa.Function)
+		t := &term{K: "sym", S: "func", F: f, FB: map[*ssa.FreeVar]*term{}}
+		if f != nil {
+			for i, fv := range f.FreeVars {
+				if i >= len(x.Bindings) {
+					break
+				}
+				if al, ok := x.Bindings[i].(*ssa.Alloc); ok {
+					if sv := singleStore(al); sv != nil {
+						t.FB[fv] = e.eval(sv)
+					}
+				} else {
+					t.FB[fv] = e.eval(x.Bindings[i])
+				}
+			}
+		}
+		return t
+	case *ssa.Function:
+		return &term{K: "sym", S: "func", F: x}
 	case *ssa.Slice:
 		// a slice of a local array literal (variadic arguments, []T{...}): its elements
 		if al, ok := x.X.(*ssa.Alloc); ok {
@@ -1206,6 +1263,9 @@ func (e *symEnv) evalCall(call *ssa.Call) []*term {
 	// handler interface
 	if cc.IsInvoke() && isHandlerIface(cc.Value.Type().String()) {
 		args := e.evalArgs(cc.Args)
+		for i := range args {
+			args[i] = canonCollectedStructs(args[i])
+		}
 		e.x.nresult++
 		hc := &HandlerCall{Method: cc.Method.Name(), Args: args, Ins: call, Ord: e.x.nresult}
 		sig := hc.Method + fmt.Sprint(args) + e.p.instrPos(call)
@@ -1217,6 +1277,15 @@ func (e *symEnv) evalCall(call *ssa.Call) []*term {
 		return []*term{r, &term{K: "sym", S: "herr"}}
 	}
 	callee := staticCallee(cc)
+	var closureFB map[*ssa.FreeVar]*term
+	if callee == nil && !cc.IsInvoke() {
+		// a function value handed in by the caller (func-typed parameter bound to a closure)
+		if t := e.eval(cc.Value); t.K == "sym" && t.S == "func" && t.F != nil && t.F.Blocks != nil && inFramework(t.F) {
+			callee = t.F
+			n = fnName(callee)
+			closureFB = t.FB
+		}
+	}
 	if callee != nil && (strings.HasPrefix(n, pkgRedis+".New") || strings.HasPrefix(n, pkgProto+".New")) && strings.Contains(n, "Message") {
 		return []*term{tOp(strings.TrimPrefix(strings.TrimPrefix(n, pkgRedis+"."), pkgProto+"."), e.evalArgs(cc.Args)...)}
 	}
@@ -1232,6 +1301,9 @@ func (e *symEnv) evalCall(call *ssa.Call) []*term {
 				e.x.calls = append(e.x.calls, hc)
 			}
 			return []*term{tOp("exec", name), &term{K: "sym", S: "herr"}}
+		}
+		if closureFB != nil {
+			e.pendingFB = closureFB
 		}
 		return e.inline(call, callee)
 	}
@@ -1339,6 +1411,10 @@ func (e *symEnv) childEnv(call *ssa.Call, callee *ssa.Function) *symEnv {
 			ne.bind[p] = e.eval(cc.Args[i])
 		}
 	}
+	for fv, t := range e.pendingFB {
+		ne.fbind[fv] = t
+	}
+	e.pendingFB = nil
 	// free variables of a closure callee: bind from the closure's bindings when resolvable
 	if mc, ok := strip(cc.Value).(*ssa.MakeClosure); ok {
 		for i, fv := range callee.FreeVars {
@@ -1364,11 +1440,28 @@ func (e *symEnv) childEnv(call *ssa.Call, callee *ssa.Function) *symEnv {
 
 // results: the alternatives of each result over the success returns of the activation.
 func (ne *symEnv) results(callee *ssa.Function) []*term {
+	return ne.resultsWhere(callee, nil)
+}
+
+// resultsWhere: as results, over the returns whose boolean results agree with req (the caller
+// is on a branch where it tested those results).
+func (ne *symEnv) resultsWhere(callee *ssa.Function, req map[int]bool) []*term {
 	nres := callee.Signature.Results().Len()
 	results := make([][]*term, nres)
 	any := false
 	for _, r := range returnsOf(callee) {
 		if r.Block() == callee.Recover || len(r.Results) != nres {
+			continue
+		}
+		skip := false
+		for j, want := range req {
+			if j < nres {
+				if cb, ok := constBool(retOperand(r, j)); ok && cb != want {
+					skip = true
+				}
+			}
+		}
+		if skip {
 			continue
 		}
 		// skip error returns
@@ -1435,6 +1528,9 @@ func (e *symEnv) onlyErrorPath(r *ssa.Return) bool {
 func (e *symEnv) evalEffects() {
 	memo := map[*ssa.Function]*hcSummary{}
 	for _, b := range e.fn.Blocks {
+		if e.deadBlock(b) {
+			continue
+		}
 		for _, ins := range b.Instrs {
 			call, ok := ins.(*ssa.Call)
 			if !ok {
@@ -1446,12 +1542,48 @@ func (e *symEnv) evalEffects() {
 				continue
 			}
 			if callee := staticCallee(cc); callee != nil && inFramework(callee) {
-				if e.p.isDispatcherCall(cc) || handlerCalls(e.p, callee, e.x.execBy, memo, 0).Max > 0 {
+				takesFunc := false
+				for _, a := range cc.Args {
+					if _, isSig := a.Type().Underlying().(*types.Signature); isSig {
+						if t := e.eval(a); t.K == "sym" && t.S == "func" && t.F != nil {
+							takesFunc = true
+						}
+					}
+				}
+				if e.p.isDispatcherCall(cc) || takesFunc || handlerCalls(e.p, callee, e.x.execBy, memo, 0).Max > 0 {
 					e.evalTuple(call)
+				}
+			} else if callee == nil && !cc.IsInvoke() {
+				// a function value handed in by the caller
+				if _, isBuiltin := cc.Value.(*ssa.Builtin); !isBuiltin {
+					if t := e.eval(cc.Value); t.K == "sym" && t.S == "func" && t.F != nil && inFramework(t.F) {
+						e.evalTuple(call)
+					}
 				}
 			}
 		}
 	}
+}
+
+// deadBlock: b is dominated by a branch whose condition is a known constant (a captured factory
+// parameter, a bound argument) taken the other way.
+func (e *symEnv) deadBlock(b *ssa.BasicBlock) bool {
+	if len(e.fbind) == 0 {
+		return false
+	}
+	for _, g := range guardsOf(b) {
+		t := e.eval(g.Cond)
+		if t.K == "op" && (t.S == "eq" || t.S == "ne") && len(t.A) == 2 && t.A[0].K == "const" && t.A[1].K == "const" {
+			same := t.A[0].S == t.A[1].S
+			t = tConst(fmt.Sprint(same == (t.S == "eq")))
+		}
+		if t.K == "const" && (t.S == "true" || t.S == "false") {
+			if (t.S == "true") != g.True {
+				return true
+			}
+		}
+	}
+	return false
 }
 
 // listElems: the element alternatives of a list-valued term.
@@ -1531,4 +1663,65 @@ func normIte(cond, tv, fv *term) *term {
 		}
 	}
 	return tOp("ite", cond, tv, fv)
+}
+
+// canonCollectedStructs: the elements of a list of structs collected by argument loops (ZADD's
+// score/member pairs) come from reads whose positions depend on how many options preceded them
+// and on how the loops are rotated. Their fields are rendered position-free: every read is
+// "A*", and the zero value a variable held before its first assignment is dropped.
+func canonCollectedStructs(t *term) *term {
+	if t == nil || !(t.K == "op" && t.S == "list") {
+		return t
+	}
+	hasStruct := false
+	for _, el := range t.A {
+		if el.K == "struct" {
+			hasStruct = true
+		}
+	}
+	if !hasStruct {
+		return t
+	}
+	var anon func(x *term) *term
+	anon = func(x *term) *term {
+		if x == nil {
+			return x
+		}
+		nx := *x
+		if x.K == "arg" {
+			k, _, _ := argOf(x)
+			nx = *wrapKind(k, "A*")
+			return &nx
+		}
+		nx.A = nil
+		for _, a := range x.A {
+			nx.A = append(nx.A, anon(a))
+		}
+		if nx.K == "alt" {
+			var keep []*term
+			for _, a := range nx.A {
+				if !isZeroTerm(a) {
+					keep = append(keep, a)
+				}
+			}
+			if len(keep) > 0 {
+				return tAlt(keep...)
+			}
+		}
+		return &nx
+	}
+	out := &term{K: "op", S: "list"}
+	seen := map[string]bool{}
+	for _, el := range t.A {
+		if el.K != "struct" {
+			out.A = append(out.A, el)
+			continue
+		}
+		ne := anon(el)
+		if k := ne.String(); !seen[k] {
+			seen[k] = true
+			out.A = append(out.A, ne)
+		}
+	}
+	return out
 }
